@@ -56,6 +56,14 @@ def run_seed(name):
         rc, lines = check(name[:3], tree)
     finally:
         sh("git -C %s checkout -- ." % tree)
+    try:
+        unreadable = json.load(open(os.path.join(d, "meta.json"))).get("unreadable")
+    except Exception:
+        unreadable = None
+    if unreadable:
+        # a documented limit (DESIGN 6): the change rewrites the code into a shape the rules do not read; the check must
+        # then refuse (exit 2) - it must not pass
+        return name, "ok(unreadable)" if rc == 2 else {0: "MISSED", 1: "ok"}.get(rc, "rc%d" % rc), lines[:2]
     return name, {0: "MISSED", 1: "ok", 2: "ANALYSIS-ERROR"}.get(rc, "rc%d" % rc), lines[:2]
 
 
